@@ -71,7 +71,7 @@ def cases(tier, seed):
                 yield ('SK', cm.on_carrier(trees))
     # [a..b] groups too wide for the exhaustive comparison of the propositional export: every selection of the
     # group's members is judged by its number of selected members (thorough: all 2^n, quick: two per count)
-    for (n, a, b) in ((14, 5, 8), (15, 7, 7), (16, 2, 3)) if tier == 'thorough' else ((14, 5, 8),):
+    for (n, a, b) in ((14, 5, 8), (16, 2, 3)) if tier == 'thorough' else ((14, 5, 8),):
         parts = 1024 if tier == 'thorough' else 1     # (a part has to stay well below the 60 s limit of one case, also on a loaded machine)
         for part in range(parts):
             yield ('WG', n, a, b, part, parts)
